@@ -51,6 +51,59 @@ def run(ctx, res):
     check_dominance(fg, cg, inv, res, mpc_o, val_o, pub_o)
     check_fields(fg, res, val_o)
     check_pure(fg, cg, inv, res, val_o)
+    check_position_index(fg, res)
+
+
+def check_position_index(fg, res):
+    """R10.pos: no container is indexed (panicking) by the *position* of an instruction in
+    circ.insts: Circuit::validate does not relate the number / position of Input instructions to
+    input_regs, so a vector sized by a circuit counter can be shorter than the instruction list."""
+    n = 0
+    bad = 0
+    for k, b in fg.bodies.items():
+        if not b.owner.startswith("polytune::mpc::protocol::"):
+            continue
+        # enumerate counters of loops over Circuit.insts: locals named by the (w, inst) pattern whose
+        # tuple comes from an Enumerate<Iter<Inst>> iterator
+        counters = set()
+        for bi, t in b.calls():
+            names = callee_names(t)
+            if any(n_.endswith("Iterator>::next") or n_.endswith("Iterator::next") for n_ in names) and t["args"] and t["args"][0]["k"] != "const":
+                ty = t["args"][0]["p"]["ty"]
+                if "Enumerate<core::slice::iter::Iter<garble_lang::register_circuit::Inst>>" in ty:
+                    # the usize component copied out of the yielded tuple
+                    d = t["d"]["l"]
+                    for blk in b.blocks:
+                        for s in blk["s"]:
+                            if s["k"] == "assign" and s["r"]["k"] == "use" and s["r"]["o"]["k"] != "const" and s["r"]["o"]["p"]["l"] == d and s["r"]["o"]["p"].get("ty") == "usize":
+                                counters.add(s["p"]["l"])
+        if not counters:
+            continue
+        # copies of the counters
+        changed = True
+        while changed:
+            changed = False
+            for blk in b.blocks:
+                for s in blk["s"]:
+                    if s["k"] == "assign" and not s["p"]["pr"] and s["r"]["k"] == "use" and s["r"]["o"]["k"] != "const" and not s["r"]["o"]["p"]["pr"] and s["r"]["o"]["p"]["l"] in counters and s["p"]["l"] not in counters and b.locals[s["p"]["l"]]["ty"] == "usize":
+                        counters.add(s["p"]["l"])
+                        changed = True
+        for bi, t in b.calls():
+            names = callee_names(t)
+            tail = names[-1].rsplit("::", 1)[-1] if names else ""
+            if tail in ("index", "index_mut") and len(t["args"]) == 2 and t["args"][1]["k"] != "const" and not t["args"][1]["p"]["pr"] and t["args"][1]["p"]["l"] in counters:
+                n += 1
+                bad += 1
+                from an import root_local
+                rl = root_local(b, t["args"][0])
+                var = b.locals[rl]["name"] if rl is not None and b.locals[rl]["name"] else "?"
+                res.bad("R10.pos", "%s|%s[w]" % (b.owner.rsplit("::", 1)[-1], var), "`%s[w]` is indexed with the position of an instruction: a circuit whose Input instructions are misplaced or surplus (it passes Circuit::validate) panics here instead of returning Err" % var, where(b, bi),
+                        key="R10.pos|%s|%s" % (b.owner.rsplit("::", 1)[-1], var))
+            elif tail in ("get", "get_mut") and len(t["args"]) == 2 and t["args"][1]["k"] != "const" and not t["args"][1]["p"]["pr"] and t["args"][1]["p"]["l"] in counters:
+                n += 1
+    res.count("position_indexed_accesses", n)
+    if not bad:
+        res.ok("R10.pos", "instruction-position", "", "%d accesses by instruction position, all through get()" % n)
 
 
 def engine_call(fg, t, exclude_owners):
